@@ -3,6 +3,7 @@ import AbraModel.Drv.I64
 import AbraModel.Drv.GC
 import AbraModel.Drv.Arena
 import AbraModel.Drv.IdSet
+import AbraModel.Drv.Marshal
 import AbraModel.Drv.Sort
 import AbraModel.Drv.CallOrder
 import AbraModel.Drv.Pratt
@@ -12,12 +13,14 @@ import AbraModel.Drv.SrcMap
 import AbraModel.Drv.Sched
 import AbraModel.Drv.PatMatrix
 import AbraModel.Drv.Sem
+import AbraModel.Drv.Compile
 import AbraModel.Drv.Arr
 import AbraModel.Drv.F64
 import AbraModel.Drv.Opt
 import AbraModel.Drv.Names
 import AbraModel.Drv.PreludeCmp
 import AbraModel.Drv.Render
+import AbraModel.Drv.HashMap
 /- Line-protocol model driver: one request per input line (`<component> <args…>`), one answer per line. -/
 open Abra.Drv
 
@@ -28,6 +31,7 @@ def dispatch (line : String) : String :=
   | "gc" :: rest => handleGC rest
   | "arena" :: rest => handleArena rest
   | "idset" :: rest => handleIdSet rest
+  | "marshal" :: rest => handleMarshal rest
   | "sort" :: rest => handleSort rest
   | "callorder" :: rest => handleCallOrder rest
   | "pratt" :: rest => handlePratt rest
@@ -43,12 +47,14 @@ def dispatch (line : String) : String :=
   | "hostcall" :: rest => handleHostCall rest
   | "pm" :: rest => handlePatMatrix rest
   | "sem" :: rest => handleSem rest
+  | "cgen" :: rest => handleCgen rest
   | "arr" :: rest => handleArr rest
   | "f64" :: rest => handleF64 rest
   | "opt" :: rest => handleOpt rest
   | "names" :: rest => handleNames rest
   | "cmp24" :: rest => handleCmp24 rest
   | "render" :: rest => handleRender rest
+  | "hmap" :: rest => handleHMap rest
   | _ => "bad-op"
 
 partial def loop (h : IO.FS.Stream) (out : IO.FS.Stream) : IO Unit := do
